@@ -1,4 +1,6 @@
 """C14 - activation equals the solution of the documented capture/decay chains."""
+from contracts import activation as A
+
 ID = "C14"
 LEVEL = "other"
 TRUSTED = ["oracle: 60+-digit decimal evaluation of the three chain solutions with an independent reader of activation.dat",
@@ -7,7 +9,7 @@ EXPLANATION = "see DESIGN.md C14"
 
 
 def units(tier):
-    return []
+    return A.U_ACTIVITY + [A.U_EPITHERMAL]
 
 
 def runner_tasks(tier):
